@@ -1,7 +1,7 @@
 #!/bin/bash
 # dev helper: run every registered quick check, log to $1
 cd ${VERIF_DIR:-/verif}; out=${1:-/var/tmp/checks.log}; tier=${2:-quick}; : > $out
-for p in $(python3 -c "import json;print(' '.join(sorted(json.load(open('/verif/checks.json')))))"); do
+for p in ${PROPS:-$(python3 -c "import json;print(' '.join(sorted(json.load(open('/verif/checks.json')))))")}; do
   echo "=== $p" >> $out
   ( time timeout 3000 ./check $p $tier ) >> $out 2>&1
   echo "exit=$?" >> $out
